@@ -144,12 +144,13 @@ Arguments ROk {S} out st.
 Arguments RErr {S} e st.
 
 Definition fixed_read (k : N) (r : fixed) : rres fixed :=
-  if N.eqb (f_remaining r) 0 then ROk [] r
+  (* (fix F38) an empty caller buffer reads nothing and reports nothing *)
+  if N.eqb (f_remaining r) 0 || N.eqb k 0 then ROk [] r
   else
     let to_read := N.min (f_remaining r) k in
     let '(out, s') := buf_read to_read (f_src r) in
     match out with
-    | [] => RErr EUnexpectedEof {| f_src := s'; f_remaining := f_remaining r |}   (* n == 0, also for an empty caller buffer *)
+    | [] => RErr EUnexpectedEof {| f_src := s'; f_remaining := f_remaining r |}   (* n == 0 *)
     | _ => ROk out {| f_src := s'; f_remaining := (f_remaining r - lenN out)%N |}
     end.
 
